@@ -314,6 +314,22 @@ fn body_clear(pat: &[u8]) {
     check(&s, &m);
 }
 
+/// clear() keeps current_buf's capacity and empties old_bufs: refilling past the retained capacity retires a
+/// REAL (full) chunk into old_bufs[0]; iteration must still yield every value in id order.
+fn body_clear_refill_iter(pat: &[u8]) {
+    let (mut s, _m) = hist(pat);
+    s.clear();
+    let mut m = Model::new();
+    let mut j = 0;
+    while j < 3 {
+        let id = s.insert(VALS[(j + 1) % 4]);
+        assert!(id == m.insert(VALS[(j + 1) % 4]), "model: ids restart at 0 after clear, in insertion order");
+        j += 1;
+    }
+    check(&s, &m);
+    ro_iter(&s, &m);
+}
+
 fn body_into_iter(pat: &[u8]) {
     let (s, m) = hist(pat);
     let mut it = s.into_iter();
@@ -406,6 +422,13 @@ harness!(q_clone_clear, q2, "reachable: histories [a,b,a], [a,b,c] executed (ori
 fn q_iter() {
     body_iter(&[0, 1]);
     kani::cover!(true, "reachable: history [0,1] executed");
+}
+
+#[kani::proof]
+#[kani::unwind(7)]
+fn q_clear_refill_iter() {
+    body_clear_refill_iter(&[0]);
+    kani::cover!(true, "reachable: history [a], clear, three inserts (one chunk retired after the clear), iterate");
 }
 
 #[kani::proof]
